@@ -451,6 +451,12 @@ Definition fx_progs : list (list op) :=
   [ [Push w_named w_good; Tag w_named (RName 1); Fetch w_unnamed];
     [Push w_named w_good; Push w_unnamed w_good; Tag w_unnamed (RName 1)] ].
 Definition fx_sched : list nat := [0; 1; 1; 0; 0; 1; 0; 1; 1; 0; 0; 1; 1; 1; 0; 1; 0; 1]%nat.
+Lemma fx_hyps : Forall untitled (concat fx_progs) /\ Forall no_alias (concat fx_progs).
+Proof.
+  split.
+  - repeat constructor.
+  - repeat constructor; try reflexivity; intros k n [].
+Qed.
 Lemma fx_quiescent : fquiescent (fconf_run true false false (fconf_init fx_progs) fx_sched) = true.
 Proof. vm_compute. reflexivity. Qed.
 
